@@ -12,7 +12,7 @@ use pgp::crypto::hash::HashAlgorithm;
 use pgp::crypto::sym::SymmetricKeyAlgorithm;
 use pgp::packet::SignatureType;
 use pgp::ser::Serialize;
-use pgp::types::{CompressionAlgorithm, KeyDetails, KeyVersion, Password, SigningKey};
+use pgp::types::{CompressionAlgorithm, KeyVersion, Password, SigningKey};
 use rayon::prelude::*;
 use serde_json::{json, Value};
 
